@@ -69,7 +69,18 @@ def one_store(ctx, spec, work, tag, need_partitions=1, light=False):
     rng = ctx.rng
     path = vcfgen.materialise(spec, pathlib.Path(work) / tag, "vcf.gz+tbi", block_size=rng.choice([120, 300]))
     icf = pathlib.Path(work) / f"{tag}.icf"
-    convlib.explode(icf, [path], partitions=rng.choice([2, 3, 4]), column_chunk_size=rng.choice([0.0002, 0.0005]))
+    # built through the distributed commands; one partition is run twice before finalise (a retried job), which must leave
+    # the same finished store
+    shutil.rmtree(icf, ignore_errors=True)
+    s_ = vcf2zarr.explode_init(icf, [path], target_num_partitions=rng.choice([2, 3, 4]), column_chunk_size=rng.choice([0.0002, 0.0005]),
+                               worker_processes=0)
+    order = list(range(s_.num_partitions))
+    rng.shuffle(order)
+    retried = rng.choice(order)
+    for j in order + [retried]:
+        vcf2zarr.explode_partition(icf, j)
+    vcf2zarr.explode_finalise(icf)
+    ctx.count("stores_with_a_retried_partition")
     store = vcf2zarr.IntermediateColumnarFormat(icf)
     if store.num_partitions < need_partitions:
         shutil.rmtree(icf, ignore_errors=True)
